@@ -76,7 +76,8 @@ RECURSIVE Escaped(_)
 Escaped(v) == IF v = <<>> THEN <<>>
               ELSE (IF Head(v) \in {34, 92} THEN <<92, Head(v)>> ELSE <<Head(v)>>) \o Escaped(Tail(v))
 Quoted(v) == IF IsToken(v) THEN v ELSE <<34>> \o Escaped(v) \o <<34>>
-WithOption(v, kn, kv) == v \o <<59, 32>> \o kn \o <<61>> \o Quoted(kv)
+\* keyword names: underscores become dashes
+WithOption(v, kn, kv) == v \o <<59, 32>> \o [k \in 1..Len(kn) |-> IF kn[k] = 95 THEN 45 ELSE kn[k]] \o <<61>> \o Quoted(kv)
 
 \* a call: [m, n, i, j, vs, ps, kn, kv, form]; ps = <<[n, vs]>>; form of the argument of
 \* extend / update: "pairs" (iterable of pairs), "dict" (mapping name -> scalar), "dictlist"
@@ -113,7 +114,8 @@ ApplyMut(h, c) ==
                                 IF \E k \in 1..Len(new) : Refused("nocheck_slice", new[k].v) THEN Refuse(h)
                                 ELSE Ok(SubSeq(h, 1, c.i) \o new \o SubSeq(h, c.j + 1, Len(h)))
     [] c.m = "extend" -> ExtendPs(Ok(h), c.ps)
-    [] c.m = "ctor" -> ExtendPs(Ok(<<>>), c.ps)          \* Headers(defaults) / Response(headers=...)
+    [] c.m = "ctor" -> LET r == ExtendPs(Ok(<<>>), c.ps) IN    \* Headers(defaults): a refused value -> no new object
+                       IF r.exc # "" THEN Refuse(h) ELSE r
     [] c.m = "update" -> UpdatePs(Ok(h), c.ps, c.form)
     [] c.m = "remove" -> Ok(Without(h, c.n))
     [] c.m = "clear" -> Ok(<<>>)
@@ -131,8 +133,9 @@ AttemptsDirty(h, c) == LET w == WouldStore(h, c) IN \E k \in 1..Len(w) : HasCRLF
 StoredClean(h) == \A k \in 1..Len(h) : ~HasCRLF(h[k].v)
 
 \* ------------------------------------------------------------------ 2. finalisation
-\* inp = [shape, items: <<[k: "s"|"b", v]>>, pt, st: [kind, code, text], method, cl: [has, val],
-\*        loc: [has, val], ac, pre, ncb, plan, hdrs: <<[n, v]>> (extra clean headers set by the app)]
+\* inp = [shape, items: <<[k: "s"|"b", v]>>, pt, st: [kind, code, text], method, cl: [has, val]
+\*        (has = the application set Content-Length itself), ac, pre, ncb, plan,
+\*        hdrs: <<[n, v]>> the response's header list just before finalisation]
 EncItem(it) == IF it.k = "s" THEN Utf8Enc(it.v) ELSE it.v
 Chunks(inp) == IF inp.shape = "file"
                THEN (IF inp.items[1].v = <<>> THEN <<>> ELSE <<inp.items[1].v>>)
@@ -189,6 +192,7 @@ LocModelled(v, ac) ==
           /\ (v[1] = 47 \/ 58 \notin {v[i] : i \in 1..Len(v)})
   /\ (ac => 46 \notin {v[i] : i \in 1..Len(v)} \/ IsAbs(v))
   /\ (ac /\ IsAbs(v) => ~Contains(v, <<47, 46>>))
+  /\ (ac => 59 \notin {v[i] : i \in 1..Len(v)})        \* urljoin drops an empty ';params' part
 IriToUri(v) ==
   LET a    == IF IsAbs(v) THEN AuthEnd(v) ELSE 0
       rest == Drop(v, a)
@@ -200,7 +204,7 @@ IriToUri(v) ==
       qry  == IF qp = 0 THEN <<>> ELSE Drop(bf, qp)
   IN Take(v, a) \o Q(path, {}) \o (IF qry = <<>> THEN <<>> ELSE <<63>> \o Q(qry, {63}))
      \o (IF frag = <<>> THEN <<>> ELSE <<35>> \o Q(frag, {63, 35}))
-UrlJoin(u) == IF IsAbs(u) THEN u
+UrlJoin(u) == IF u = <<>> \/ IsAbs(u) THEN u
               ELSE IF u[1] = 47 THEN ORIGIN \o u ELSE ORIGIN \o DIR \o u
 LocOut(v, ac) == LET u == IriToUri(v) IN IF ac THEN UrlJoin(u) ELSE u
 
@@ -208,14 +212,18 @@ EntityStripped == {LowerSeq(CTN), LowerSeq(CLN)}
 Strip304(h) == SelectSeq(h, LAMBDA e : LowerSeq(e.n) \notin EntityStripped)
 LastValue(h, n) == LET vs == ValuesOf(h, n) IN vs[Len(vs)]
 
+\* documented construction: default Content-Type; a str / bytes body sets Content-Length
+\* (set_data); then what the application does: extra headers, its own Content-Length, Location
+Construct(shape, enc, cl, loc, ex) ==
+  LET h0  == <<H(CTN, CTV)>> \o (IF shape \in {"str", "bytes"} THEN <<H(CLN, DecOf(Len(enc)))>> ELSE <<>>)
+      h1  == ExtendPs(Ok(h0), [k \in 1..Len(ex) |-> [n |-> ex[k].n, vs |-> <<ex[k].v>>]]).h
+      h1b == IF cl.has THEN Set(Ok(h1), CLN, cl.val).h ELSE h1
+  IN IF loc.has THEN Set(Ok(h1b), LOCN, loc.val).h ELSE h1b
+
 Finalize(inp) ==
   LET code  == Code(inp.st)
       enc   == EncBody(inp)
-      \* ---- construction: default Content-Type; a str/bytes body sets Content-Length (set_data)
-      h0    == <<H(CTN, CTV)>> \o (IF inp.shape \in {"str", "bytes"} THEN <<H(CLN, DecOf(Len(enc)))>> ELSE <<>>)
-      h1    == IF inp.cl.has THEN Set(Ok(h0), CLN, inp.cl.val).h ELSE h0
-      h1b   == ExtendPs(Ok(h1), [k \in 1..Len(inp.hdrs) |-> [n |-> inp.hdrs[k].n, vs |-> <<inp.hdrs[k].v>>]]).h
-      h2    == IF inp.loc.has THEN Set(Ok(h1b), LOCN, inp.loc.val).h ELSE h1b
+      h2    == inp.hdrs          \* the header list just before finalisation (see Construct)
       \* ---- implicit sequence conversion before finalisation (get_data / make_sequence)
       conv  == inp.pre # "none" /\ ~IsSeqShape(inp.shape) /\ ~inp.pt
       isseq == IsSeqShape(inp.shape) \/ conv
@@ -267,7 +275,7 @@ FinDrift(inp, out) ==
   IF out.exc # "" THEN "ok"
   ELSE IF out.status # m.status /\ (inp.st.kind = "str" \/ ReasonKnown(inp.st.code)) THEN "status"
   ELSE IF out.body # m.body THEN "body"
-  ELSE IF (~inp.loc.has \/ LocModelled(inp.loc.val, inp.ac)) /\ [k \in 1..Len(out.headers) |-> H(out.headers[k].n, out.headers[k].v)] # m.headers THEN "headers"
+  ELSE IF inp.envstd /\ (~Has(inp.hdrs, LOCN) \/ LocModelled(LastValue(inp.hdrs, LOCN), inp.ac)) /\ [k \in 1..Len(out.headers) |-> H(out.headers[k].n, out.headers[k].v)] # m.headers THEN "headers"
   ELSE IF out.raw # m.raw THEN "raw"
   ELSE "ok"
 =============================================================================
